@@ -3,7 +3,7 @@ C07  TaskGroup.start(): the statements that need the fresh-allocation invariant 
 (`AnyioModel.Kernel.FutInv` .. `FutInv6`): a start future is private to the handshake.
 Property theorems only; `Props/C07.lean` has the step-local part.
 -/
-import AnyioModel.Kernel.FutInv5
+import AnyioModel.Kernel.FutInv6
 import AnyioModel.Props.C07
 
 namespace AnyioModel.Kernel
@@ -67,64 +67,6 @@ theorem C07_early_exit {st st' : State} {out : Out} {u g sf : Nat} {o : Outcome}
   C07_early_exit_partial (st := { st with cur := st.cur.erase (.taskDone u) }) hg ho hsf hp
     ((C07_start_future_fresh h hsf).2.2.1 g) (C07_taskDone_step hs)
 
-/-- what the `wakeup` transition of a task does -/
-theorem step_wakeup_eq {st st' : State} {t : Nat} {o : Out}
-    (hs : step st (.run (.wakeup t)) = some (st', o)) :
-    ∃ f, (st.tasks t).st = .woken f ∧
-      continueLib
-        { ({ st with cur := st.cur.erase (.wakeup t) } : State).setTask t
-            (fun x => { x with st := .running, mustCancel := false }) with running := some t } t
-        (resumeValue st t) = some (st', o) := by
-  simp only [step] at hs
-  split at hs
-  · contradiction
-  · split at hs
-    · rename_i f hst
-      refine ⟨f, hst, ?_⟩
-      unfold runTask at hs
-      simp only [] at hs
-      have e : (({ st with cur := st.cur.erase (.wakeup t) } : State).tasks t).st = .woken f := hst
-      rw [e] at hs
-      exact hs
-    · contradiction
-
-/-- the same for the `step` transition of a task that is not at its very beginning -/
-theorem step_step_eq {st st' : State} {t : Nat} {o : Out}
-    (hs : step st (.run (.step t)) = some (st', o)) (hy : (st.tasks t).st = .yielded) :
-    continueLib
-        { ({ st with cur := st.cur.erase (.step t) } : State).setTask t
-            (fun x => { x with st := .running, mustCancel := false }) with running := some t } t
-        (resumeValue st t) = some (st', o) := by
-  simp only [step] at hs
-  split at hs
-  · contradiction
-  · split at hs
-    · unfold runTask at hs
-      simp only [] at hs
-      have e : (({ st with cur := st.cur.erase (.step t) } : State).tasks t).st = .yielded := hy
-      rw [e] at hs
-      exact hs
-    · contradiction
-
-/-- if a resumed task is sent a plain value, the future it waited for has a result -/
-theorem resumeValue_none_woken {st : State} (h : Reach st) {t f : Nat}
-    (hw : (st.tasks t).st = .woken f) (hr : resumeValue st t = .none) : st.futs f = .result := by
-  have i := finv_reach h
-  have hd := i.wk_done t f hw
-  have hn := i.fail_ne f
-  unfold resumeValue at hr
-  simp only [hw] at hr
-  cases hf : st.futs f with
-  | pending => rw [hf] at hd; cases hd
-  | result => rfl
-  | cancelled a => rw [hf] at hr; simp at hr
-  | failed e =>
-    rw [hf] at hr
-    simp only [] at hr
-    split at hr
-    · split at hr <;> cases hr
-    · subst hr; exact absurd hf hn
-
 /-- Value: `start()` returns normally only if the start future of the child it waits for has a
 result (which only `task_status.started()` called by that child produces,
 `C07_start_future_private`, `C07_result_by_started`). -/
@@ -162,5 +104,143 @@ theorem C07_caller_cancelled_join {st st' : State} {t g u s : Nat} {e : ExcVal} 
     · exact i.sj_yield t g u s e hl hy
   · obtain ⟨f, hw, _⟩ := step_wakeup_eq hs
     exact i.sj_woken t g u s e f hl hw (resumeValue_none_woken h hw hr)
+
+/-- Start futures are private to the handshake.  In every reachable state, if a transition
+changes the state of the start future `sf` of child `u`, then the future was pending and
+* the transition is `task_status.started()` executed by `u`, and the future gets a result; or
+* it is the `task_done` callback of `u`, and the future gets the child's exception; or
+* the caller of `start()` -- a task inside `start()` for this child, blocked on `sf` -- was
+  cancelled, and the future is cancelled. -/
+theorem C07_start_future_private {st st' : State} {e : Ev} {o : Out} {u sf : Nat} (h : Reach st)
+    (hsf : (st.tasks u).startFut = some sf) (hs : step st e = some (st', o))
+    (hch : st'.futs sf ≠ st.futs sf) :
+    st.futs sf = .pending ∧
+    ((e = .started ∧ st.running = some u ∧ st'.futs sf = .result) ∨
+     (e = .run (.taskDone u) ∧ ∃ x, st'.futs sf = .failed x) ∨
+     (∃ t g an, (st.tasks t).lib = .startWait g u sf ∧ (st.tasks t).st = .blocked sf ∧
+        st'.futs sf = .cancelled an)) := by
+  have i := finv_reach h
+  have fe := fe_step hs
+  have fr := C07_start_future_fresh h hsf
+  have hp : st.futs sf = .pending := by
+    cases hd : (st.futs sf).done
+    · exact futSt_pending_of_not_done hd
+    · exact absurd (fe.done sf fr.1 hd) hch
+  refine ⟨hp, ?_⟩
+  by_cases ht : Touched st e sf
+  · cases e with
+    | started =>
+      obtain ⟨t, hr, hst⟩ := ht
+      have := fr.2.2.2.2.2.2.1 t hst
+      subst this
+      left
+      refine ⟨rfl, hr, ?_⟩
+      have := (C07_second_started hr hst hs).1 hp
+      rw [this.1, rf_futs]; simp [hp, FutSt.done]
+    | run x =>
+      cases x with
+      | sleepDone f0 =>
+        obtain ⟨rfl, hc⟩ := ht
+        exact absurd (.inr (.inl hc)) fr.2.2.2.2.2.1
+      | taskDone u' =>
+        rcases ht with ⟨g, _, hc⟩ | hc
+        · exact absurd hc (fr.2.2.1 g)
+        · have := fr.2.2.2.2.2.2.1 u' hc
+          subst this
+          right; left
+          refine ⟨rfl, ?_⟩
+          obtain ⟨g, sc, o', hg, _, ho, _⟩ := runTaskDone_shape (C07_taskDone_step hs)
+          exact ⟨_, (C07_early_exit h hg ho hsf hp hs).1⟩
+      | _ => cases ht
+    | setFut f0 => obtain ⟨rfl, hc⟩ := ht; rw [fr.2.1] at hc; cases hc
+    | awaitFut f0 => obtain ⟨rfl, hc⟩ := ht; rw [fr.2.1] at hc; cases hc
+    | finish o => obtain ⟨t, _, hc⟩ := ht; exact absurd hc (fr.2.2.2.1 t)
+    | _ => cases ht
+  · rcases fe.futs sf ht (.inl fr.1) with e1 | ⟨_, ⟨an, hc⟩, t, hb⟩
+    · exact absurd e1 hch
+    · right; right
+      obtain ⟨g, hl⟩ := fr.2.2.2.2.2.2.2 t hb
+      exact ⟨t, g, an, hl, hb, hc⟩
+
+/-- Only `started()` gives a start future a result, along every run: if in the state reached by
+the event list `evs` the start future of child `u` has a result, then `evs` contains a
+`started` event that was executed while `u` was the running task. -/
+theorem C07_result_by_started {u sf : Nat} : ∀ (evs : List Ev) {s0 st : State}, Reach s0 →
+    runFrom step s0 evs = some st → (st.tasks u).startFut = some sf → st.futs sf = .result →
+    ((s0.tasks u).startFut = some sf ∧ s0.futs sf = .result) ∨
+    ∃ evs1 evs2 st1, evs = evs1 ++ Ev.started :: evs2 ∧ runFrom step s0 evs1 = some st1 ∧
+      st1.running = some u := by
+  intro evs
+  induction evs with
+  | nil =>
+    intro s0 st _ hr hsf hres
+    simp only [runFrom, Option.some.injEq] at hr
+    subst hr
+    exact .inl ⟨hsf, hres⟩
+  | cons e es ih =>
+    intro s0 st h0 hr hsf hres
+    simp only [runFrom] at hr
+    split at hr
+    · contradiction
+    · rename_i s1 o hs
+      have h1 : Reach s1 := Reachable.next h0 hs
+      rcases ih h1 hr hsf hres with ⟨hsf1, hres1⟩ | ⟨evs1, evs2, st1, he, hr1, hrun⟩
+      · have fe := fe_step hs
+        have i0 := finv_reach h0
+        rcases fe.sfut u sf hsf1 with hsf0 | hge
+        · by_cases hres0 : s0.futs sf = .result
+          · exact .inl ⟨hsf0, hres0⟩
+          · right
+            have hch : s1.futs sf ≠ s0.futs sf := by rw [hres1]; exact fun hc => hres0 hc.symm
+            obtain ⟨_, hc | hc | ⟨t, g, an, _, _, hc⟩⟩ := C07_start_future_private h0 hsf0 hs hch
+            · exact ⟨[], es, s0, by rw [hc.1]; rfl, rfl, hc.2.1⟩
+            · obtain ⟨_, x, hx⟩ := hc; rw [hx] at hres1; cases hres1
+            · rw [hc] at hres1; cases hres1
+        · -- the child was spawned by this very transition: its start future is fresh
+          exfalso
+          rcases fe.res sf hres1 with hc | hc
+          · rw [i0.fut_dflt sf hge] at hc; cases hc
+          · obtain ⟨r, hrole⟩ := touched_role hc
+            have := i0.role_lt sf r hrole
+            omega
+      · right
+        refine ⟨e :: evs1, evs2, st1, by rw [he]; rfl, ?_, hrun⟩
+        simp only [runFrom, hs]
+        exact hr1
+
+/-- ... from the initial state: a start future that has a result was resolved by a `started()`
+of its child. -/
+theorem C07_value_by_started {evs : List Ev} {st : State} {u sf : Nat}
+    (hr : runFrom step init evs = some st) (hsf : (st.tasks u).startFut = some sf)
+    (hres : st.futs sf = .result) :
+    ∃ evs1 evs2 st1, evs = evs1 ++ Ev.started :: evs2 ∧ runFrom step init evs1 = some st1 ∧
+      st1.running = some u := by
+  rcases C07_result_by_started evs (Reachable.start rfl) hr hsf hres with ⟨h1, _⟩ | h
+  · simp [init] at h1
+    split at h1 <;> simp at h1
+  · exact h
+
+/-! ### non-vacuity -/
+
+/-- `started()` by the child resolves the start future (future 0 of child 1) -/
+example : (runFrom step init
+    [.mkGroup, .groupEnter 0, .start 0, .beginCycle 0, .run (.step 1), .started]).map
+    (fun st => ((st.tasks 1).startFut, st.futs 0, st.running)) =
+    some (some 0, .result, some 1) := by decide
+
+/-- the caller of `start()` is cancelled while it waits: the start future is cancelled, the caller
+goes on to wait (shielded) for the child: `Lib.startJoin`, blocked on a `TaskHandle.wait()`
+future of the child -/
+example : (runFrom step init
+    [.mkGroup, .groupEnter 0, .start 0, .nativeCancel 0, .beginCycle 0, .run (.wakeup 0)]).map
+    (fun st => (st.futs 0, (st.tasks 0).lib, (st.tasks 0).st, (st.tasks 1).hwaiters)) =
+    some (.cancelled false, .startJoin 0 1 2 (.one .cancelNative), .blocked 1, [1]) := by decide
+
+/-- ... and is resumed with a plain value once the child has finished -/
+example : (runFrom step init
+    [.mkGroup, .groupEnter 0, .start 0, .nativeCancel 0, .beginCycle 0, .run (.wakeup 0),
+     .run (.step 1), .finish .none, .beginCycle 0, .run (.wakeup 0)]).map
+    (fun st => ((st.tasks 1).finished, (st.tasks 0).lib, st.futs 1)) =
+    some (true, .none, .result) := by decide
 
 end AnyioModel.Kernel
